@@ -336,8 +336,9 @@ func (p *Parser) parseSpecs(specs []srcInput, listener *TreeShapeListener) (*sys
 			return nil, err
 		}
 
-		walker := antlr.NewParseTreeWalker()
-		walker.Walk(listener, tree)
+		if err := walkTree(src.filename, listener, tree); err != nil {
+			return nil, err
+		}
 	}
 
 	listener.lintAppDefs()
@@ -508,10 +509,23 @@ func parseImports(parent importDef, src sourceCtxHelper, input string) ([]import
 		return nil, err
 	}
 
-	walker := antlr.NewParseTreeWalker()
-	walker.Walk(listener, tree)
+	if err := walkTree(parent.filename, listener, tree); err != nil {
+		return nil, err
+	}
 
 	return listener.imports, nil
+}
+
+// walkTree walks the parse tree with the listener. Like parseString, it reports a panic raised
+// while processing the input as a parse error of that file instead of crashing the process.
+func walkTree(filename string, listener *TreeShapeListener, tree antlr.ParseTree) (err error) {
+	defer func() {
+		if r := recover(); r != nil {
+			err = syslutil.Exitf(ParseError, fmt.Sprintf("%s has errors: %v\n", filename, r))
+		}
+	}()
+	antlr.NewParseTreeWalker().Walk(listener, tree)
+	return nil
 }
 
 // apply attributes from src to dst statement and all of its
